@@ -47,7 +47,17 @@ def self_call(e, method):
         e = A.strip_expr(e["recv"])
     if e["k"] == "ref":
         return self_call(e["expr"], method)
-    return e["k"] == "mcall" and e["method"] == method and not e["args"] and A.path_ids(e["recv"]) == ["self"]
+    if e["k"] == "mcall" and e["method"] == method and not e["args"] and A.path_ids(e["recv"]) == ["self"]:
+        return True
+    # fully qualified form of the same accessor call: `<..>::ExecutorBuilder::<method>(&self)` / `BoundQuerier::<method>(self)`
+    if e["k"] == "call" and e["func"].get("k") == "path" and not e["func"].get("qself") and len(e["args"]) == 1:
+        ids = A.path_ids(e["func"])
+        a = A.strip_expr(e["args"][0])
+        if a["k"] == "ref":
+            a = A.strip_expr(a["expr"])
+        if len(ids) >= 2 and ids[-1] == method and ids[-2] in ("ExecutorBuilder", "BoundQuerier", "Remote", "Self") and A.path_ids(a) == ["self"]:
+            return True
+    return False
 
 
 def self_field_expr(e, field):
